@@ -116,10 +116,10 @@ def _targets():
         cmds=lambda out: [_verilate('Vhex_pkg', 'hex', SV, out, '--trace --public-flat-rw')] +
         _vl_compile(out, 'Vhex_pkg', _s('c13_planted.cpp') + _r('hex.cpp'), 'c13planted', trace=True))
     t['fuzz-xcmp'] = dict(
-        deps=CXX_HDRS + _r('hex.cpp') + _s('fuzz_xcmp.cpp', 'fuzz_common.hpp', 'refisa.hpp'),
+        deps=CXX_HDRS + _r('hex.cpp') + _s('fuzz_xcmp.cpp', 'fuzz_common.hpp', 'fillnew.hpp'),
         cmds=lambda out: ['%s %s %s -o %s/fuzz-xcmp' % (FUZZ, _s('fuzz_xcmp.cpp')[0], _r('hex.cpp')[0], out)])
     t['fuzz-hexasm'] = dict(
-        deps=CXX_HDRS + _r('hex.cpp') + _s('fuzz_hexasm.cpp', 'fuzz_common.hpp', 'refisa.hpp'),
+        deps=CXX_HDRS + _r('hex.cpp') + _s('fuzz_hexasm.cpp', 'fuzz_common.hpp', 'fillnew.hpp'),
         cmds=lambda out: ['%s %s %s -o %s/fuzz-hexasm' % (FUZZ, _s('fuzz_hexasm.cpp')[0], _r('hex.cpp')[0], out)])
     return t
 
